@@ -39,6 +39,9 @@ pub(super) fn add_missing_data(
     let seek = match RoughPos::new(source, start_bound, Bound::Unbounded) {
         Ok(seek) => seek,
         Err(seek::Error::EmptyFile) => return Ok(()),
+        // the source has no line after the last one in the cache
+        // (bucket size one): nothing is missing
+        Err(seek::Error::StartAfterData { .. }) => return Ok(()),
         Err(other) => return Err(Error::SeekingSource(other)),
     };
     let Some(seek) = seek.refine(source)? else {
